@@ -42,11 +42,38 @@ Fixpoint val_sim (a b : value) {struct a} : bool :=
    errors: RErr of any class except ErrPanic. *)
 Record eval_case := { ev_sx : sx; ev_env : list (str * value); ev_print : bool; ev_impl : res value }.
 
+(* the parser's own restriction (parser.rs 861-869; `printable` in Model/PrattSide.v encodes it):
+   a unary operation — also one that `not in` / `is not` desugar to — directly to the right of `~`
+   is a syntax error, even in parentheses.  Such an expression is not well-formed for the parser,
+   so it is outside the domain of the evaluator; the engine must answer with a syntax error. *)
+Fixpoint concat_unary (s : sx) : bool :=
+  let o := fun (x : option sx) => match x with Some y => concat_unary y | None => false end in
+  let kws := fun (kw : list (str * sx)) => existsb (fun p : str * sx => match p with (_, v) => concat_unary v end) kw in
+  match s with
+  | SConst _ | SVar _ => false
+  | SAttr e _ _ | SUn _ e | SParen e => concat_unary e
+  | SItem e i _ => concat_unary e || concat_unary i
+  | SSlice e a b c _ => concat_unary e || o a || o b || o c
+  | SBin op a b =>
+      (match op with OConcat => is_unary (desugar b) | _ => false end) || concat_unary a || concat_unary b
+  | SNotIn a b => concat_unary a || concat_unary b
+  | STest e _ kw _ | SFilter e _ kw => concat_unary e || kws kw
+  | SCall _ kw => kws kw
+  | STern c t f => concat_unary c || concat_unary t || concat_unary f
+  | SArr items => existsb (fun p : bool * sx => match p with (_, v) => concat_unary v end) items
+  | SMap es => existsb (fun p : option mkey * sx => match p with (_, v) => concat_unary v end) es
+  | SComp e _ _ t c => concat_unary e || concat_unary t || o c
+  end.
+
 Definition model_eval (c : eval_case) : ev :=
   let r := eval (ev_env c) (desugar (ev_sx c)) in
   if ev_print c then printed r else r.
 
 Definition check_eval (c : eval_case) : bool :=
+  if concat_unary (ev_sx c) then
+    (* outside the domain, for exactly this restriction: the engine must reject the text *)
+    match ev_impl c with RErr ErrOther => true | _ => false end
+  else
   match model_eval c, ev_impl c with
   | Unspec, RErr ErrPanic => false
   | Unspec, _ => true                     (* the documentation leaves it open / another property *)
